@@ -21,10 +21,11 @@ REFS = os.path.join(os.path.dirname(os.path.dirname(os.path.abspath(__file__))),
 
 # loops whose termination needs a character-level argument; each entry names the structural side conditions re-checked below
 REVIEWED_LOOPS = {
-    ("parse::tag::Template::parse", frozenset(["Node::parse_vec_node", "skip_until_after"])):
-        "parse_vec_node returns only at end of input or in front of `</`; the loop then consumes up to the next `>` (or everything)",
-    ("parse::tag::Node::parse_vec_node", frozenset(["CustomAttribute::parse_until_tag_end", "Element::parse", "Ident::parse_colon_separated", "Value::parse_until_before", "consume_str", "skip_until_after"])):
-        "the text arm stops in front of `<` + (`/` | `!` | tag start char), which are exactly the cases taken by the earlier arms, so it consumes at least one character",
+    # function -> (calls the reviewed argument relies on, argument); the loop counts as reviewed while it still makes those calls
+    "parse::tag::Template::parse": (frozenset(["Node::parse_vec_node", "skip_until_after"]),
+                                    "parse_vec_node returns only at end of input or in front of `</`; the loop then consumes up to the next `>` (or everything)"),
+    "parse::tag::Node::parse_vec_node": (frozenset(["Element::parse", "Value::parse_until_before", "consume_str"]),
+                                         "the text arm stops in front of `<` + (`/` | `!` | tag start char), which are exactly the cases taken by the earlier arms, so it consumes at least one character"),
 }
 
 
@@ -42,9 +43,9 @@ def progress_rule(ctx):
             if r["ok"]:
                 obs.append(ob(key, True, ctx.where(f), "%s loop: every path to the back edge consumes input (calls: %s)" % (r["kind"], ", ".join(r["calls"])[:120])))
                 continue
-            rv = REVIEWED_LOOPS.get((f.qual, frozenset(r["calls"])))
-            if rv:
-                obs.append(ob(key, True, ctx.where(f), "reviewed loop (side conditions checked separately): %s" % rv))
+            rv = REVIEWED_LOOPS.get(f.qual)
+            if rv and rv[0] <= frozenset(r["calls"]):
+                obs.append(ob(key, True, ctx.where(f), "reviewed loop (side conditions checked separately): %s" % rv[1]))
                 continue
             obs.append(ob(key, False, ctx.where(f),
                           "%s loop (expanded line %d) can reach its back edge without consuming input (states at the back edge (advanced, non-empty): %s; cursor calls: %s): it spins forever, pushing a diagnostic per iteration if it reports one" % (r["kind"], r["line"], r["back_states"], ", ".join(r["calls"])[:160]),
